@@ -22,6 +22,15 @@ CHECKS = {
         "insertion order. Tied to SimpleCache / SimpleDominanceChecker by exhaustive short + random long operation sequences and 2..16-thread phases.",
    note=TB + "Real-thread atomicity is ASSUMED from dashmap (each trait method = one per-key map operation) and only stress-tested.",
    technique="Coq refinement proof to a sequential spec + commutation lemmas; exhaustive op-sequence correspondence"),
+ "C11": dict(cat="proof", design="7.11",
+   text="Closed Coq theorems about a faithful model of the indexed binary heap of NoDupFringe (states map keyed by (state, depth) as after the fix:, nodes, pos, "
+        "heap, recycle bin, bubble up/down) for EVERY operation sequence: no panic, representation invariant, step-by-step simulation by an abstract "
+        "coalescing priority queue (nothing lost or invented, pop returns a MaxUB-maximal entry, length = poppable items), successive pops non-increasing in "
+        "(ub, value), survivor keeps the larger value with its own path and the larger ub, coalescing only for equal (state, depth); refutation witness for the "
+        "pre-fix code. Tied to the code by exhaustive short + long random operation sequences (exact answer equality) and by replaying the answers of BOTH "
+        "fringes against the abstract queue.",
+   note=TB + "SimpleFringe is binary_heap_plus (external): specified by the abstract queue and tested only.",
+   technique="Coq refinement proof (heap model -> abstract priority queue) + exhaustive op-sequence correspondence"),
  "C10": dict(cat="other", design="7.10",
    text="Checker level: closed Coq theorems (partial_cmp is the component-wise order, verdict <-> an earlier query strictly dominates, store is an "
         "antichain, threshold soundness, cmp ranks the dominator first) for every query sequence, tied to the code by exhaustive + random differential "
@@ -29,6 +38,54 @@ CHECKS = {
         "solver runs against exhaustive enumeration.",
    note=TB + "Open: C10_search_sound.",
    technique="Coq proof (checker) + differential correspondence; solver-level by oracle comparison"),
+ "C06": dict(cat="other", design="7.6",
+   text="relaxed diagrams: valid upper bound, truthful exactness. An executable Coq model of the three diagram implementations (Mdd.v: clean LEL / frontier / pooled, one parametric transliteration) is compared "
+        "with the code on every compilation of the stream (API results, drained cut-set, full DOT dump with node ids/flags/bounds/thresholds/edges, callback log): "
+        "any behavioural change of the diagram code breaks the correspondence. The property's clauses are evaluated on the implementation's answers with the "
+        "extracted Coq specification (exhaustive enumeration of the sub-problem) as oracle. Theorems about the model are registered in Props/C06.v as they are "
+        "closed; the semantic bound/cover theorems are still open obligations (listed in the evidence).",
+   note=TB + "Hash-map iteration order is abstracted (layers sorted by a total DominanceChecker comparator; tie among equally valued terminals = oracle argument).",
+   technique="executable Coq model + differential correspondence + specification oracle; partial Coq theorems"),
+ "C07": dict(cat="other", design="7.7",
+   text="restricted diagrams: feasible lower bounds; exact mode optimal. An executable Coq model of the three diagram implementations (Mdd.v: clean LEL / frontier / pooled, one parametric transliteration) is compared "
+        "with the code on every compilation of the stream (API results, drained cut-set, full DOT dump with node ids/flags/bounds/thresholds/edges, callback log): "
+        "any behavioural change of the diagram code breaks the correspondence. The property's clauses are evaluated on the implementation's answers with the "
+        "extracted Coq specification (exhaustive enumeration of the sub-problem) as oracle. Theorems about the model are registered in Props/C07.v as they are "
+        "closed; the semantic bound/cover theorems are still open obligations (listed in the evidence).",
+   note=TB + "Hash-map iteration order is abstracted (layers sorted by a total DominanceChecker comparator; tie among equally valued terminals = oracle argument).",
+   technique="executable Coq model + differential correspondence + specification oracle; partial Coq theorems"),
+ "C08": dict(cat="other", design="7.8",
+   text="cut-sets: exact, progressing, validly bounded, covering. An executable Coq model of the three diagram implementations (Mdd.v: clean LEL / frontier / pooled, one parametric transliteration) is compared "
+        "with the code on every compilation of the stream (API results, drained cut-set, full DOT dump with node ids/flags/bounds/thresholds/edges, callback log): "
+        "any behavioural change of the diagram code breaks the correspondence. The property's clauses are evaluated on the implementation's answers with the "
+        "extracted Coq specification (exhaustive enumeration of the sub-problem) as oracle. Theorems about the model are registered in Props/C08.v as they are "
+        "closed; the semantic bound/cover theorems are still open obligations (listed in the evidence).",
+   note=TB + "Hash-map iteration order is abstracted (layers sorted by a total DominanceChecker comparator; tie among equally valued terminals = oracle argument).",
+   technique="executable Coq model + differential correspondence + specification oracle; partial Coq theorems"),
+ "C12": dict(cat="other", design="7.12",
+   text="callback protocol. An executable Coq model of the three diagram implementations (Mdd.v: clean LEL / frontier / pooled, one parametric transliteration) is compared "
+        "with the code on every compilation of the stream (API results, drained cut-set, full DOT dump with node ids/flags/bounds/thresholds/edges, callback log): "
+        "any behavioural change of the diagram code breaks the correspondence. The property's clauses are evaluated on the implementation's answers with the "
+        "extracted Coq specification (exhaustive enumeration of the sub-problem) as oracle. Theorems about the model are registered in Props/C12.v as they are "
+        "closed; the semantic bound/cover theorems are still open obligations (listed in the evidence).",
+   note=TB + "Hash-map iteration order is abstracted (layers sorted by a total DominanceChecker comparator; tie among equally valued terminals = oracle argument).",
+   technique="executable Coq model + differential correspondence + specification oracle; partial Coq theorems"),
+ "C13": dict(cat="other", design="7.13",
+   text="maximum width bounds the work per layer; combinators never yield 0. An executable Coq model of the three diagram implementations (Mdd.v: clean LEL / frontier / pooled, one parametric transliteration) is compared "
+        "with the code on every compilation of the stream (API results, drained cut-set, full DOT dump with node ids/flags/bounds/thresholds/edges, callback log): "
+        "any behavioural change of the diagram code breaks the correspondence. The property's clauses are evaluated on the implementation's answers with the "
+        "extracted Coq specification (exhaustive enumeration of the sub-problem) as oracle. Theorems about the model are registered in Props/C13.v as they are "
+        "closed; the semantic bound/cover theorems are still open obligations (listed in the evidence).",
+   note=TB + "Hash-map iteration order is abstracted (layers sorted by a total DominanceChecker comparator; tie among equally valued terminals = oracle argument).",
+   technique="executable Coq model + differential correspondence + specification oracle; partial Coq theorems"),
+ "C20": dict(cat="other", design="7.20",
+   text="as_graphviz total and faithful. An executable Coq model of the three diagram implementations (Mdd.v: clean LEL / frontier / pooled, one parametric transliteration) is compared "
+        "with the code on every compilation of the stream (API results, drained cut-set, full DOT dump with node ids/flags/bounds/thresholds/edges, callback log): "
+        "any behavioural change of the diagram code breaks the correspondence. The property's clauses are evaluated on the implementation's answers with the "
+        "extracted Coq specification (exhaustive enumeration of the sub-problem) as oracle. Theorems about the model are registered in Props/C20.v as they are "
+        "closed; the semantic bound/cover theorems are still open obligations (listed in the evidence).",
+   note=TB + "Hash-map iteration order is abstracted (layers sorted by a total DominanceChecker comparator; tie among equally valued terminals = oracle argument).",
+   technique="executable Coq model + differential correspondence + specification oracle; partial Coq theorems"),
 }
 
 def main():
